@@ -26,6 +26,9 @@ pub enum WPlan {
     Accept(usize),
     /// return Pending once (and wake immediately)
     Yield,
+    /// take the bytes (the peer sees them at once) but tell the writer only at its next poll: the
+    /// writing task was descheduled between the kernel accepting the bytes and the call returning
+    LateAck,
     Err(io::ErrorKind),
 }
 
@@ -46,6 +49,8 @@ pub struct SockState {
     pub closed: bool,
     pub send_calls: u64,
     pub fail_all_writes: Option<io::ErrorKind>,
+    /// bytes already taken by a `LateAck` write that has not reported back yet
+    pub late_ack: Option<usize>,
     // scripted properties
     pub can_pass_fd: bool,
     pub uid: Option<u32>,
@@ -218,7 +223,16 @@ impl WriteHalf for SWrite {
             if let Some(k) = s.fail_all_writes {
                 return Poll::Ready(Err(io::Error::new(k, "injected write error")));
             }
+            if let Some(n) = s.late_ack.take() {
+                return Poll::Ready(Ok(n.min(buffer.len())));
+            }
             match s.write_plan.pop_front() {
+                Some(WPlan::LateAck) => {
+                    s.sent.push((buffer.to_vec(), inos.clone()));
+                    s.late_ack = Some(buffer.len());
+                    cx.waker().wake_by_ref();
+                    Poll::Pending
+                }
                 Some(WPlan::Yield) => {
                     cx.waker().wake_by_ref();
                     Poll::Pending
